@@ -365,6 +365,52 @@ Proof.
   apply NoDup_app_mid; [exact HN|]. apply (fresh_notin_tracked s HB).
 Qed.
 
+(* create_view(name, xmiID=, sofaNum=): a value chosen by the caller is reserved, a missing one is generated *)
+Lemma pick_bump o n : n <= bump o n /\ pick o n < bump o n.
+Proof. destruct o as [k|]; cbn [pick bump]; [apply reserve_ge|lia]. Qed.
+
+Lemma pick_notin o n l : Forall (fun i => i < n) l -> optmem o l = false -> ~ In (pick o n) l.
+Proof.
+  intros H Hm. destruct o as [k|]; cbn [pick optmem] in *; [apply memz_false, Hm|apply Forall_lt_notin, H].
+Qed.
+
+Lemma InvB_create_view_at name xid num s :
+  InvB s -> view_okb s (OpCreateViewAt name xid num) = true -> InvB (fst (create_view_at name xid num s)).
+Proof.
+  intros H Hok. cbn [view_okb] in Hok. apply andb_true_iff in Hok. destruct Hok as [Hx Hn].
+  apply negb_true_iff in Hx. apply negb_true_iff in Hn. unfold create_view_at.
+  destruct (existsb (fun x => String.eqb (s_name x) name) (sofas s)) eqn:E; cbn [fst]; [exact H|].
+  destruct (pick_bump xid (next_id s)) as [Hi1 Hi2]. destruct (pick_bump num (next_num s)) as [Hn1 Hn2].
+  destruct H as [H1 H2 H3 H4 H5 H6].
+  constructor; unfold sids, snums, lowids in *; cbn [next_id next_num sofas fss].
+  - rewrite map_app, Forall_app. split; [eapply Forall_lt_mono; [|exact H1]; lia|]. cbn [map s_id]. repeat constructor. exact Hi2.
+  - eapply Forall_lt_mono; [|exact H2]. lia.
+  - rewrite map_app, Forall_app. split; [eapply Forall_lt_mono; [|exact H3]; lia|]. cbn [map s_num]. repeat constructor. exact Hn2.
+  - rewrite map_app. cbn [map s_id]. apply NoDup_snoc; [exact H4|]. apply pick_notin; assumption.
+  - rewrite map_app. cbn [map s_num]. apply NoDup_snoc; [exact H5|]. apply pick_notin; assumption.
+  - destruct (sofas s) as [|i r] eqn:Es; [contradiction|]. cbn [app init_first] in *. destruct H6 as [Hi Hr].
+    split; [exact Hi|]. rewrite forallb_app, Hr. cbn [forallb andb]. unfold is_init at 1. cbn [s_name].
+    unfold is_init in Hi. apply String.eqb_eq in Hi.
+    pose proof (existsb_name_false _ _ E i (or_introl eq_refl)) as Hne.
+    destruct (String.eqb name init_name) eqn:E2; [|reflexivity].
+    apply String.eqb_eq in E2. congruence.
+Qed.
+
+Lemma Inv_create_view_at name xid num s :
+  Inv s -> op_okb s (OpCreateViewAt name xid num) = true -> Inv (fst (create_view_at name xid num s)).
+Proof.
+  intros H Hok. cbn [op_okb] in Hok. apply andb_true_iff in Hok. destruct Hok as [Hv Ht].
+  split; [apply InvB_create_view_at; [apply H|exact Hv]|]. destruct H as [HB HN].
+  cbn [view_okb] in Hv. apply andb_true_iff in Hv. destruct Hv as [Hx _].
+  apply negb_true_iff in Hx. apply negb_true_iff in Ht. unfold create_view_at.
+  destruct (existsb (fun x => String.eqb (s_name x) name) (sofas s)) eqn:E; cbn [fst]; [exact HN|].
+  unfold sids, tracked in *. cbn [sofas fss]. rewrite map_app. cbn [map s_id]. rewrite <- app_assoc.
+  apply NoDup_app_mid; [exact HN|].
+  destruct xid as [k|]; cbn [pick optmem] in *.
+  - rewrite in_app_iff. intros [Hin|Hin]; [apply memz_false in Hx|apply memz_false in Ht]; tauto.
+  - apply (fresh_notin_tracked s HB).
+Qed.
+
 (* ------------------------------------------------------------------ the traversal loop *)
 
 Lemma zlookup_None i seen : zlookup i seen = None -> ~ In i (map fst seen).
@@ -694,9 +740,9 @@ Qed.
 
 (* ------------------------------------------------------------------ steps and histories *)
 
-Lemma InvB_step s o : InvB s -> InvB (fst (step s o)).
+Lemma InvB_step s o : InvB s -> view_okb s o = true -> InvB (fst (step s o)).
 Proof.
-  intros H. destruct o; cbn [step fst].
+  intros H Hv. destruct o; cbn [step fst].
   - apply InvB_new, H.
   - apply InvB_add, H.
   - apply InvB_add_all, H.
@@ -708,6 +754,7 @@ Proof.
     destruct (save_spec InvB order s s1 r assign_InvB E H) as (H1 & _). destruct r; cbn [fst]; [|exact H1|exact H1].
     apply reload_InvB, H1.
   - apply InvB_force, H.
+  - apply InvB_create_view_at; assumption.
 Qed.
 
 Lemma Inv_step s o : Inv s -> op_okb s o = true -> Inv (fst (step s o)).
@@ -726,10 +773,31 @@ Proof.
     + destruct (save_spec Inv order s s1 _ assign_Inv E H) as (H1 & _). exact H1.
     + destruct (save_spec Inv order s s1 _ assign_Inv E H) as (H1 & _). exact H1.
   - apply Inv_force, H.
+  - apply Inv_create_view_at; assumption.
 Qed.
 
-Lemma InvB_run h : forall s, InvB s -> InvB (run s h).
-Proof. induction h as [|o r IH]; intros s H; [exact H|]. cbn [run fold_left]. apply IH, InvB_step, H. Qed.
+Lemma InvB_run h : forall s, InvB s -> views_okb s h = true -> InvB (run s h).
+Proof.
+  induction h as [|o r IH]; intros s H Hok; [exact H|]. cbn [views_okb] in Hok. apply andb_true_iff in Hok.
+  destruct Hok as [H1 H2]. cbn [run fold_left]. apply IH; [apply InvB_step; assumption|exact H2].
+Qed.
+
+(* histories that never pass a value to create_view satisfy the premise on chosen values *)
+Lemma views_okb_plain h : forall s, forallb plain_op h = true -> views_okb s h = true.
+Proof.
+  induction h as [|o r IH]; intros s Hp; [reflexivity|]. cbn [forallb] in Hp. apply andb_true_iff in Hp.
+  destruct Hp as [H1 H2]. cbn [views_okb]. rewrite (IH _ H2), andb_true_r. destruct o; try reflexivity. discriminate.
+Qed.
+
+(* the premise of the stronger invariant contains it *)
+Lemma op_okb_view s o : op_okb s o = true -> view_okb s o = true.
+Proof. destruct o; cbn [op_okb view_okb]; try reflexivity. intros H. apply andb_true_iff in H. apply H. Qed.
+
+Lemma hist_okb_views h : forall s, hist_okb s h = true -> views_okb s h = true.
+Proof.
+  induction h as [|o r IH]; intros s H; [reflexivity|]. cbn [hist_okb] in H. apply andb_true_iff in H.
+  destruct H as [H1 H2]. cbn [views_okb]. rewrite (op_okb_view _ _ H1), (IH _ H2). reflexivity.
+Qed.
 
 Lemma Inv_run h : forall s, Inv s -> hist_okb s h = true -> Inv (run s h).
 Proof.
@@ -910,25 +978,25 @@ Qed.
 
 (* ------------------------------------------------------------------ history-level statements *)
 
-Theorem ids_below_next s0 h : Start s0 ->
+Theorem ids_below_next s0 h : Start s0 -> views_okb s0 h = true ->
   let s := run s0 h in
   Forall (fun i => i < next_id s) (sids s) /\ Forall (fun i => i < next_id s) (lowids s) /\
   Forall (fun n => n < next_num s) (snums s).
 Proof.
-  intros H0 s. pose proof (InvB_run h _ (proj1 (Start_Inv _ H0))) as H. fold s in H.
+  intros H0 Hv s. pose proof (InvB_run h _ (proj1 (Start_Inv _ H0)) Hv) as H. fold s in H.
   split; [apply (b_sid _ H)|]. split; [apply (b_low _ H)|apply (b_num _ H)].
 Qed.
 
-Theorem fresh_id_unused s0 h : Start s0 ->
+Theorem fresh_id_unused s0 h : Start s0 -> views_okb s0 h = true ->
   let s := run s0 h in ~ In (next_id s) (sids s ++ lowids s) /\ ~ In (next_num s) (snums s).
 Proof.
-  intros H0 s. pose proof (InvB_run h _ (proj1 (Start_Inv _ H0))) as H. fold s in H.
+  intros H0 Hv s. pose proof (InvB_run h _ (proj1 (Start_Inv _ H0)) Hv) as H. fold s in H.
   split; [apply fresh_notin, H|apply Forall_lt_notin, (b_num _ H)].
 Qed.
 
-Theorem sofanums_unique s0 h : Start s0 -> NoDup (snums (run s0 h)) /\ NoDup (sids (run s0 h)).
+Theorem sofanums_unique s0 h : Start s0 -> views_okb s0 h = true -> NoDup (snums (run s0 h)) /\ NoDup (sids (run s0 h)).
 Proof.
-  intros H0. pose proof (InvB_run h _ (proj1 (Start_Inv _ H0))) as H. split; [apply (b_ndn _ H)|apply (b_nds _ H)].
+  intros H0 Hv. pose proof (InvB_run h _ (proj1 (Start_Inv _ H0)) Hv) as H. split; [apply (b_ndn _ H)|apply (b_nds _ H)].
 Qed.
 
 Theorem tracked_ids_distinct s0 h : Start s0 -> hist_okb s0 h = true -> NoDup (sids (run s0 h) ++ tracked (run s0 h)).
@@ -942,10 +1010,10 @@ Proof.
   destruct (written_distinct order s s1 seen H Hc Hrun) as [H1 H2]. split; [exact H2|apply (b_ndn _ (proj1 H1))].
 Qed.
 
-Theorem no_two_fs_written s0 h order s1 seen : Start s0 ->
+Theorem no_two_fs_written s0 h order s1 seen : Start s0 -> views_okb s0 h = true ->
   save order (run s0 h) = (s1, Ok seen) -> NoDup (map fst seen) /\ NoDup (sids s1) /\ NoDup (snums s1).
 Proof.
-  intros H0 Hrun. pose proof (InvB_run h _ (proj1 (Start_Inv _ H0))) as H.
+  intros H0 Hv Hrun. pose proof (InvB_run h _ (proj1 (Start_Inv _ H0)) Hv) as H.
   destruct (written_fs_distinct order _ s1 seen H Hrun) as (_ & H1). exact H1.
 Qed.
 
@@ -953,7 +1021,7 @@ Theorem reload_preserves_invariant s order : Inv s -> forced_clearb s = true -> 
 Proof. intros H Hc. apply Inv_step; [exact H|exact Hc]. Qed.
 
 Theorem reload_preserves_bounds s order : InvB s -> InvB (fst (step s (OpReload order))).
-Proof. apply InvB_step. Qed.
+Proof. intros H. apply InvB_step; [exact H|reflexivity]. Qed.
 
 (* reflection of the invariant, so that it can be evaluated on concrete states *)
 Definition invb (s : st) : bool :=
@@ -979,6 +1047,25 @@ Proof.
     [(1, 1)].
   split; [constructor|]. split; [vm_compute; reflexivity|].
   intro H. apply znodupb_NoDup in H. vm_compute in H. discriminate.
+Qed.
+
+(* the premise on values chosen by the caller is needed: create_view does not reject a sofaNum (an xmi:id) that a sofa
+   already has *)
+Theorem chosen_values_unchecked :
+  ~ NoDup (snums (run init_empty [OpCreateViewAt "a" None (Some 1)])) /\
+  ~ NoDup (sids (run init_empty [OpCreateViewAt "a" (Some 1) None])).
+Proof. split; intro H; apply znodupb_NoDup in H; vm_compute in H; discriminate. Qed.
+
+(* a value chosen by the caller is taken out of the pool of its generator: the sofa created by
+   create_view(name, xmiID=Some k, sofaNum=Some n) carries k and n, and both generators are beyond them afterwards *)
+Theorem chosen_values_reserved name k n s :
+  existsb (fun x => String.eqb (s_name x) name) (sofas s) = false ->
+  let s1 := fst (step s (OpCreateViewAt name (Some k) (Some n))) in
+  In (mkSofa k n name) (sofas s1) /\ k < next_id s1 /\ n < next_num s1 /\ next_id s <= next_id s1 /\ next_num s <= next_num s1.
+Proof.
+  intros E s1. unfold s1. cbn [step]. unfold create_view_at. rewrite E. cbn [fst sofas next_id next_num pick bump].
+  destruct (reserve_ge k (next_id s)). destruct (reserve_ge n (next_num s)).
+  split; [apply in_or_app; right; left; reflexivity|]. lia.
 Qed.
 
 (* ------------------------------------------------------------------ an id, once present, stays *)
@@ -1061,6 +1148,7 @@ Proof.
     unfold Stable in H1. rewrite Hf1 in H1. congruence.
   - unfold force. destruct (fget l0 (fss s)) as [f|] eqn:Hf; [|exact H]. unfold set_fss.
     eapply Stable_upd; eauto. intros ->. lia.
+  - unfold create_view_at. destruct (existsb _ (sofas s)); exact H.
 Qed.
 
 Theorem id_stable h : forall s l i,
